@@ -17,6 +17,7 @@ import (
 // The current schema is the against schema after several path-preserving edits (C03-style
 // operators at the model level), spread over all modules so that import-only files change too.
 
+var c06DeletedElemRE = regexp.MustCompile(`^Previously present (enum|message|service) "([^"]+)" was deleted from package "([^"]+)"\.$`)
 var c06DeletedFileRE = regexp.MustCompile(`^Previously present file "([^"]+)" was deleted\.$`)
 
 type c06BreakingEdit struct {
@@ -255,11 +256,31 @@ func c06BreakingPart(env *c06Env, clean *gen.Schema, idx int) {
 			c.Count("breaking_moved_messages", 1)
 		}
 	}
+	againstTypes := against.TypeIndex()
 	againstPath := func(a lintAnn) string {
 		// an annotation about a deleted file has no location of its own; its against-location is that file
 		if a.Path == "" && a.Rule == "FILE_NO_DELETE" {
 			if m := c06DeletedFileRE.FindStringSubmatch(a.Msg); m != nil {
 				return m[1]
+			}
+		}
+		// an element deleted together with the whole package view of the current image: located in the against file only
+		if a.Path == "" {
+			if m := c06DeletedElemRE.FindStringSubmatch(a.Msg); m != nil {
+				full := m[3] + "." + m[2]
+				if m[1] == "service" {
+					for _, f := range against.AllFiles() {
+						if f.Package == m[3] {
+							for _, sv := range f.Services {
+								if sv.Name == m[2] {
+									return f.Path
+								}
+							}
+						}
+					}
+				} else if ti, ok := againstTypes[full]; ok {
+					return ti.File.Path
+				}
 			}
 		}
 		for _, ms := range movedSpans {
